@@ -1219,6 +1219,72 @@ fn run_simplify(prog_s: &str, out: &mut Out, hist: &mut Hist) {
     }
 }
 
+// ------------------------------------------------------------------------------------------------ C18.annot
+
+/// `C18.annot <on|off> <program>`: for every pipeline of a wide program, how many `register(`, `[[vk::binding(`,
+/// `[[vk::ext_decorate(`, `[[vk::ext_extension(` the DirectX and the Vulkan export contain:
+/// `P0{dx:3,0,0,0;vk:0,3,1,1}..` | front | back.  Oracle (the property's words): a DirectX export has no `[[vk::` at all,
+/// a Vulkan export no `register(`, both have as many binding annotations as reported bindings.
+fn run_annot(on: bool, prog_s: &str, out: &mut Out, hist: &mut Hist) {
+    let Some(prog) = WProgram::parse(prog_s) else {
+        out.case(&format!("C18.annot\t{}\t{}\tbackend=ok", if on { "on" } else { "off" }, prog_s), "", "SKIP:bad program");
+        return;
+    };
+    let r = render_wide(&prog, &RenderOpts { include: false });
+    let defs: Vec<(&str, &str)> = if on { vec![("WIDE_ON", "1")] } else { Vec::new() };
+    let dx = compile_info(&r.files, &defs, Tgt::Dx, &Mode::All);
+    let vk = compile_info(&r.files, &defs, Tgt::Vk, &Mode::All);
+    // whether the exporter itself gives up (a documented GenerateError) is an input of the model
+    let req = format!(
+        "C18.annot\t{}\t{}\tbackend={}",
+        if on { "on" } else { "off" },
+        prog_s,
+        if class(&dx) == "back" || class(&vk) == "back" { "err" } else { "ok" }
+    );
+    let names: Vec<String> = prog.active(on).pipes().iter().map(|p| p.name.clone()).collect();
+    let count = |t: &str| -> (usize, usize, usize, usize) {
+        (t.matches("register(").count(), t.matches("[[vk::binding(").count(), t.matches("[[vk::ext_decorate(").count(), t.matches("[[vk::ext_extension(").count())
+    };
+    match (&dx, &vk) {
+        (Verdict::Ok(d), Verdict::Ok(v)) if d.len() == v.len() && d.len() == names.len() => {
+            let mut obs = String::new();
+            let mut fails: Vec<String> = Vec::new();
+            for i in 0..d.len() {
+                let (a, b) = (count(&d[i].text), count(&v[i].text));
+                obs.push_str(&format!("{}{{dx:{},{},{},{};vk:{},{},{},{}}}", names[i], a.0, a.1, a.2, a.3, b.0, b.1, b.2, b.3));
+                if d[i].text.contains("[[vk::") {
+                    fails.push(format!("pipeline {}: the DirectX export contains a [[vk:: attribute", names[i]));
+                }
+                if b.0 != 0 {
+                    fails.push(format!("pipeline {}: the Vulkan export contains a register annotation", names[i]));
+                }
+                if a.0 != d[i].bindings.len() || b.1 != v[i].bindings.len() {
+                    fails.push(format!(
+                        "pipeline {}: {} register annotations for {} DirectX bindings, {} vk::binding for {} Vulkan bindings",
+                        names[i], a.0, d[i].bindings.len(), b.1, v[i].bindings.len()
+                    ));
+                }
+                if b.2 + b.3 > 0 {
+                    hist.add("annot-per-primitive");
+                }
+            }
+            hist.add("annot-ok");
+            let oracle = if fails.is_empty() { "ok".to_string() } else { format!("FAIL:{}", fails[0]) };
+            out.case(&req, &obs, &oracle);
+        }
+        (Verdict::Panic(p), _) | (_, Verdict::Panic(p)) => out.case(&req, &format!("panic:{}", p), &format!("FAIL:panic {}", p)),
+        (Verdict::Err(e), _) if e == "Shader does not contain a single pipeline" => {
+            hist.add("annot-none");
+            out.case(&req, "none", "ok");
+        }
+        _ => {
+            let c = class(&dx);
+            hist.add(&format!("annot-{}", c));
+            out.case(&req, if c == "ok" { "back" } else { c }, "ok");
+        }
+    }
+}
+
 // ------------------------------------------------------------------------------------------------ C18.defines
 
 const PROBE_NAMES: &[&str] = &[
@@ -1526,6 +1592,7 @@ pub fn run(args: &Args, out: &mut Out) {
                     }
                 }
                 "C18.simplify" if f.len() == 2 => run_simplify(f[1], out, &mut hist),
+                "C18.annot" if f.len() == 4 => run_annot(f[1] == "on", f[2], out, &mut hist),
                 "C18.defines" if f.len() == 2 => {
                     if let Some(t) = Tgt::parse(f[1]) {
                         run_defines(t, out);
@@ -1574,12 +1641,17 @@ pub fn run(args: &Args, out: &mut Out) {
             odd_percent: 0,
             bad_sampler_percent: 0,
             no_overloads: true,
+            cbuffer_percent: 35,
             allow_mesh: i % 2 == 0,
             unsized_arrays: i % 3 == 0,
             ..WideOpts::default()
         };
         let prog = gen_wide(&mut prng, &wo);
         run_simplify(&prog.show(), out, &mut hist);
+        // annotation counts: mesh pipelines are what makes the per-primitive sites show
+        let wo = WideOpts { odd_percent: if i % 4 == 0 { 60 } else { 0 }, bad_sampler_percent: 0, no_overloads: true, allow_mesh: true, ..WideOpts::default() };
+        let prog = gen_wide(&mut prng, &wo);
+        run_annot(i % 2 == 0, &prog.show(), out, &mut hist);
     }
     let defs = defs_by_target(out);
     let npp = if args.thorough() { 20000 } else { 1500 };
